@@ -105,7 +105,7 @@ ADDENDA = {
             None),
     'C16': ('; numerical level (model TensorNum, module C16Kron): util.tensor = iterated Kronecker product, tensor_transpose of the formed product = product of the permuted factors',
             ' The numerical results of tensor / tensor_transpose / tensor_insert / tensor_merge are modelled on shape + buffer arrays and run bit-identically against the package; the chain and transpose theorems are proved for all chains of matrices of arbitrary shapes.',
-            'the numerical merge theorem and the single-factor insert theorem are proved (module C16KronIns); tensor_insert with several factors is proved at the level of the factor order only (its numerical model agrees bit for bit with the package); rank != 2 and broadcast axes are outside the numerical model; chains beyond 52 subscript letters are outside the model.'),
+            'for rank 2 without broadcast axes the numerical theorems cover tensor, tensor_transpose, tensor_merge and tensor_insert (sequence and integer positions; modules C16Kron, C16KronIns, C16KronLoop); rank != 2 and broadcast axes are outside the numerical model (factor order proved only); chains beyond 52 subscript letters are outside the model.'),
     'C17': ('; bridge to the numeric models (module C17Bridge): pulses equal under the model of __eq__ have equal propagators, control matrices and filter functions',
             ' The last clause of the property is now a theorem: equality under the model of __eq__ implies the same Hamiltonian function and hence equal propagators at all common edges, equal control-matrix rows (matched by identifier) and equal filter functions, each pulse with its own eigh output.',
             None),
@@ -130,7 +130,7 @@ ADDENDA = {
             ' The filter-function input path of _get_integrand is now modelled and proved equivalent to the control-matrix path (also inside the memory-parsimonious loop and for pulse correlations), so the reported numbers cannot depend on whether a generalized filter function happens to be cached.',
             'return_smallness and test_convergence are not modelled; option plumbing beyond the path selection is validated by search.'),
     'C09': ('; conditional complete positivity of the first-order cumulant function and of every Lindblad generator (projected Choi matrix PSD), second order = unitary part, complete positivity of exp(K) (Euler limit in a Banach algebra + closed cone of CP maps), verdicts of liouville_is_CP / liouville_is_cCP under the eigenvalue oracle (modules C09cCP, C09EtmCP, C09EtmCPLiou, C09EtmChoi)',
-            ' For every complete orthonormal Hermitian basis containing a multiple of the identity and every real symmetric positive-semidefinite matrix of decay amplitudes, the first-order cumulant function passes the package\'s cCP test and the error transfer matrix exp(K) (also with the second-order part, also for sums over noise sources) has a positive-semidefinite Choi matrix, i.e. passes liouville_is_CP; the function error_transfer_matrix itself is modelled up to the expm oracle (module C09EtmFn: what is exponentiated, both input modes, rejections, error_transfer_matrix_physical end to end).',
+            ' For every complete orthonormal Hermitian basis containing a multiple of the identity and every real symmetric positive-semidefinite matrix of decay amplitudes, the first-order cumulant function passes the package\'s cCP test and the error transfer matrix exp(K) (also with the second-order part, also for sums over noise sources) has a positive-semidefinite Choi matrix, i.e. passes liouville_is_CP; the function error_transfer_matrix itself is modelled up to the expm oracle (module C09EtmFn: what is exponentiated, both input modes, rejections, error_transfer_matrix_physical end to end; modules C09EtmFnShapes / C09EtmFnCross: all three spectrum shapes, and the positive semidefiniteness of the summed decay amplitudes is derived from a non-negative / Hermitian positive-semidefinite spectrum on a sorted grid, so that no hypothesis on the decay amplitudes is left).',
             'expm and the eigenvalue routine are oracles; complete positivity is proved for real symmetric PSD decay amplitudes (what the package forms for PSD spectra) — for a complex Hermitian matrix the statement is false; the sparse COO path of the trace tensor is validated by search.'),
     'C10': ('; model of calculate_frequency_shifts (three spectrum shapes, subsets): entries, slices, linearity, dependence on the F2 values only (reuse of intermediates), Hermitian part = decay amplitudes (module C10Shifts)',
             ' The frequency shifts are proved to be the trapezoid of S x F2 / 2 pi and to depend only on the second-order filter function values, so reusing cached intermediates that equal the fresh ones cannot change them.', None),
